@@ -526,6 +526,7 @@ func c18OpsTerm(e *c18Emit, ops []c18Op) string {
 // ---------------------------------------------------------------------------------------------
 // hazards: trigger conditions of the known failing classes, computed from the input only
 
+// spellings the gzip layer used to recognise; the others keep their own input class
 var c18Listed = map[string]bool{"gzip": true, "compress": true, "deflate": true, "br": true}
 
 // rfcOffersGzip is only used to name the input class (the verdict is Coq's offers_gzip).
@@ -580,13 +581,14 @@ func c18Hazard(in *c18In) string {
 	}
 	switch in.Kind {
 	case "script":
-		committed := false
+		committed, flushFirst := false, false
 		ce := ""
 		for _, o := range in.Script {
 			switch o.K {
 			case "f":
 				if !committed {
-					return "flush-before-header"
+					// the Flush starts the response; a WriteHeader after it is a repeated one
+					committed, flushFirst = true, true
 				}
 			case "wh":
 				if committed {
@@ -601,7 +603,10 @@ func c18Hazard(in *c18In) string {
 				}
 			}
 		}
-		if ce != "" && !c18Listed[ce] {
+		if flushFirst {
+			return "flush-before-header"
+		}
+		if ce != "" && ce != "identity" && !c18Listed[ce] {
 			if ce == "zstd" {
 				return "already-encoded:zstd"
 			}
@@ -807,6 +812,7 @@ var c18AEs = []string{
 	"gzip", "gzip", "gzip", "gzip, deflate, br", "gzip, deflate", "br, gzip", "zstd, gzip", "gzip, zstd", "zstd, br, gzip",
 	"br", "zstd", "deflate", "identity", "*", "", "GZIP", "x-gzip", "gzip;q=1.0", "br;q=1.0, gzip;q=0.8", "gzip ,br", " gzip",
 	"gzip,br,zstd", "zstd,gzip", "br;q=0.9, zstd;q=0.8", "deflate, gzip;q=0.5", "identity;q=0, gzip",
+	"gzip;q=0, gzip", "gzip;q=00", "gzip;q=0.001", "gzip ; q = 0", "*;q=0, gzip", "gzip;q=", "br,\tgzip",
 }
 var c18BadAEs = []string{"gzip;q=0", "gzip;q=0, identity", "gzip; q=0.0, br", "br, gzip;q=0.000", "notgzip", "gzipped, br", "x-gzip;q=0"}
 
@@ -886,8 +892,39 @@ func c18GenPath(r *Rand) string {
 	return dir + name
 }
 
+// c18WildScript: an arbitrary interleaving of header operations, WriteHeader, Write and Flush
+// (the theorems quantify over every such sequence). No Content-Length (the inner one must be
+// right, see the assumptions), final statuses with a body only, Content-Encoding labels only
+// that the harness client does not try to peel (the writes are not encoded).
+func c18WildScript(r *Rand) []c18Op {
+	var ops []c18Op
+	if r.Chance(70) {
+		ops = append(ops, c18Op{K: "set", A: "Content-Type", B: "text/plain"})
+	}
+	for n := r.Range(1, 9); n > 0; n-- {
+		switch r.Intn(9) {
+		case 0, 1:
+			ops = append(ops, c18Op{K: "wh", N: c18PickInt(r, []int{200, 200, 201, 404, 500})})
+		case 2, 3, 4:
+			ops = append(ops, c18Op{K: "w", D: c18Text(r, c18PickInt(r, []int{0, 1, 7, 40, 300}))})
+		case 5, 6:
+			ops = append(ops, c18Op{K: "f"})
+		case 7:
+			ops = append(ops, c18Op{K: "set", A: "Content-Encoding", B: r.Pick([]string{"frob", "identity", "frob, x", ""})}) // never a coding the body is not in
+		case 8:
+			late := []c18Op{{K: "set", A: "ETag", B: `"abc"`}, {K: "add", A: "Vary", B: "Cookie"},
+				{K: "del", A: "Content-Encoding"}, {K: "set", A: "X-Late", B: "1"}}
+			ops = append(ops, late[r.Intn(len(late))])
+		}
+	}
+	return ops
+}
+
 func c18GenScript(r *Rand, cfgs []c18Cfg, hazard string) ([]c18Op, int) {
 	var ops []c18Op
+	if hazard == "wild" {
+		return c18WildScript(r), 0
+	}
 	// plaintext and how the handler has (already) encoded it
 	sizes := []int{0, 1, 19, 20, 21, 36, 37, 38, 99, 100, 101, 399, 400, 401, 600}
 	n := c18PickInt(r, sizes)
@@ -902,7 +939,7 @@ func c18GenScript(r *Rand, cfgs []c18Cfg, hazard string) ([]c18Op, int) {
 	} else if hazard == "already-encoded:unlisted-spelling" {
 		ce = r.Pick([]string{"x-gzip", "GZIP", "br, gzip", "Br"})
 	} else if r.Chance(25) {
-		ce = r.Pick([]string{"gzip", "br", "deflate", "compress"})
+		ce = r.Pick([]string{"gzip", "br", "deflate", "compress", "zstd", "identity"})
 	}
 	switch strings.ToLower(strings.TrimSpace(ce)) {
 	case "gzip", "x-gzip":
@@ -950,6 +987,11 @@ func c18GenScript(r *Rand, cfgs []c18Cfg, hazard string) ([]c18Op, int) {
 	status := 200
 	if r.Chance(30) {
 		status = c18PickInt(r, []int{200, 201, 203, 206, 404, 500, 301, 204, 304, 410})
+	}
+	if hazard == "flush-before-header" && (status == 204 || status == 304) {
+		// the Flush commits a 200: the (possibly encoded) body must stay, or the handler's own
+		// Content-Encoding label would be wrong in the identity run already
+		status = 200
 	}
 	if status == 204 || status == 304 {
 		// no body allowed; a Content-Length would be meaningless
@@ -1024,7 +1066,8 @@ func c18Gen(r *Rand, tier string) []interface{} {
 	pickAE := func(in *c18In, hazard string) {
 		switch {
 		case hazard == "ae:gzip-q0":
-			in.AE = r.Pick([]string{"gzip;q=0", "gzip;q=0, identity", "gzip; q=0.0, br", "br, gzip;q=0.000", "x-gzip;q=0"})
+			in.AE = r.Pick([]string{"gzip;q=0", "gzip;q=0, identity", "gzip; q=0.0, br", "br, gzip;q=0.000", "x-gzip;q=0",
+				"gzip;Q=0", "gzip;q=0.", "x-gzip ;\tq=0.00", "gzip;level=9;q=0", "br;q=1, gzip;q=0;x=1"})
 		case hazard == "ae:gzip-substring":
 			in.AE = r.Pick([]string{"notgzip", "gzipped, br", "xgzipx"})
 		case hazard == "already-encoded:zstd":
@@ -1053,6 +1096,8 @@ func c18Gen(r *Rand, tier string) []interface{} {
 			hz := ""
 			if r.Chance(10) {
 				hz = r.Pick(hazards)
+			} else if r.Chance(12) {
+				hz = "wild"
 			}
 			pickAE(in, hz)
 			in.Script, in.Ret = c18GenScript(r, cfgs, hz)
@@ -1108,7 +1153,8 @@ func c18Gen(r *Rand, tier string) []interface{} {
 }
 
 // ---------------------------------------------------------------------------------------------
-// translator: skip list, default extensions, sibling priority from the Go AST
+// translator: default extensions, sibling priority from the Go AST
+// (SkipCompressedFilter has no table any more: every Content-Encoding other than identity is left alone)
 
 func c18StringLit(e ast.Expr) (string, bool) {
 	bl, ok := e.(*ast.BasicLit)
@@ -1120,48 +1166,6 @@ func c18StringLit(e ast.Expr) (string, bool) {
 }
 
 func c18GenCoq(repo string) (string, error) {
-	// SkipCompressedFilter.ShouldCompress: the case clause of the switch that returns false
-	_, f, err := parseGo(filepath.Join(repo, "caskethttp/gzip/responsefilter.go"))
-	if err != nil {
-		return "", err
-	}
-	skip := []string{}
-	foundSkip := false
-	for _, d := range f.Decls {
-		fd, ok := d.(*ast.FuncDecl)
-		if !ok || fd.Name.Name != "ShouldCompress" || fd.Recv == nil || len(fd.Recv.List) != 1 {
-			continue
-		}
-		if id, ok := fd.Recv.List[0].Type.(*ast.Ident); !ok || id.Name != "SkipCompressedFilter" {
-			continue
-		}
-		// the method exists; a switch without any `return false` clause skips nothing
-		foundSkip = true
-		ast.Inspect(fd.Body, func(n ast.Node) bool {
-			cc, ok := n.(*ast.CaseClause)
-			if !ok || len(cc.List) == 0 || len(cc.Body) != 1 {
-				return true
-			}
-			ret, ok := cc.Body[0].(*ast.ReturnStmt)
-			if !ok || len(ret.Results) != 1 {
-				return true
-			}
-			if id, ok := ret.Results[0].(*ast.Ident); !ok || id.Name != "false" {
-				return true
-			}
-			for _, e := range cc.List {
-				s, ok := c18StringLit(e)
-				if !ok {
-					return true
-				}
-				skip = append(skip, s)
-			}
-			return true
-		})
-	}
-	if !foundSkip {
-		return "", fmt.Errorf("method SkipCompressedFilter.ShouldCompress not found in responsefilter.go")
-	}
 	// defaultExtensions
 	_, f2, err := parseGo(filepath.Join(repo, "caskethttp/gzip/requestfilter.go"))
 	if err != nil {
@@ -1233,9 +1237,7 @@ func c18GenCoq(repo string) (string, error) {
 	for _, p := range prio {
 		ps = append(ps, cPair(cStr(p[0]), cStr(p[1])))
 	}
-	return "(* gzip.SkipCompressedFilter: Content-Encoding values that are left alone *)\n" +
-		"Definition gen_c18_skip : list bytes := " + cStrList(skip) + ".\n" +
-		"(* gzip.defaultExtensions *)\n" +
+	return "(* gzip.defaultExtensions *)\n" +
 		"Definition gen_c18_default_exts : list bytes := " + cStrList(dexts) + ".\n" +
 		"(* staticfiles.staticEncodingPriority: (coding, file extension) *)\n" +
 		"Definition gen_c18_static_priority : list (bytes * bytes) := " + cList(ps) + ".\n", nil
